@@ -19,7 +19,7 @@ static int ninv; static char fresh0[256]; static bool have_fresh; static bool ho
 static char descr[600];
 static int TGT;      /* index of the command under test: 0, or 1 when a disabled command / a command of a disabled group comes first in the table */
 /* overflow cells: a READ of two variables on a capacity around the point where the separator lands on the last byte of the buffer; with a small event in flight next door */
-static int lead_disabled; static bool big_ubuf, qmark, tgt_disabled, spurious_release;
+static int lead_disabled; static bool big_ubuf, qmark, tgt_disabled, spurious_release, wo_vars;
 static bool ovf, conc_event; static int ovf_digits, ovf_delta, conc_units; static long conc_step; static bool conc_accepted;
 
 /* observed units */
@@ -112,7 +112,7 @@ static void run_cell(void)
         qmark = qmark && kind == K_WRITE && nvars == 0;
         if (tgt_disabled && fsm == FSM_U) { c->disable = true; CNT("event_cells_on_a_disabled_command"); }      /* the disable flag hides a command from the input stream; an accepted event of it is processed like any other */
         struct cat_variable *v = w_vars(c, (size_t)nvars);
-        for (int j = 0; j < nvars; j++) { v[j].type = CAT_VAR_UINT_DEC; v[j].name = j ? "Y" : "X"; uint8_t *d = w_vdata(&v[j], 1); *d = (uint8_t)(7 + j); v[j].read = hv_read; v[j].write = hv_write; }
+        for (int j = 0; j < nvars; j++) { v[j].type = CAT_VAR_UINT_DEC; v[j].name = j ? "Y" : "X"; uint8_t *d = w_vdata(&v[j], 1); *d = (uint8_t)(7 + j); v[j].read = hv_read; v[j].write = hv_write; if (wo_vars) { v[j].access = CAT_VAR_ACCESS_WRITE_ONLY; v[j].read = NULL; } }
         if (ovf) { uint32_t x = 1; for (int q = 1; q < ovf_digits; q++) x *= 10; uint8_t *d = w_vdata(&v[0], 4); memcpy(d, &x, 4); }      /* "+C=<ovf_digits digits>,8" */
         arr[1].name = xstr("+O"); arr[1].run = h_run;
         { struct cat_variable *o = w_vars(&arr[1], 1); o->type = CAT_VAR_UINT_DEC; uint8_t *d = w_vdata(o, 1); *d = 5; }
@@ -147,7 +147,7 @@ static void run_cell(void)
                 if (n < 0 || (size_t)n >= capf) { final = "ERROR"; CNT("automatic_texts_that_do_not_fit"); if ((size_t)n == capf || (size_t)n == capf + 1) CNT("automatic_texts_one_or_two_bytes_too_long"); }
         }
         while (!final) {
-                if (kind == K_READ && nvars > 0) { bool failed = false; for (int j = 0; j < nvars; j++) if (vr++ == vr_fail) failed = true; if (failed) { final = "ERROR"; break; } }
+                if (kind == K_READ && nvars > 0 && !wo_vars) { bool failed = false; for (int j = 0; j < nvars; j++) if (vr++ == vr_fail) failed = true; if (failed) { final = "ERROR"; break; } }
                 int k = einv++;
                 int code = k < slen ? script[k] : CAT_RETURN_STATE_OK;
                 char pay[64]; bool mod = rt && (rewrite == 1 || (rewrite == 2 && (k & 1)));
@@ -258,7 +258,7 @@ struct case_budget chk_budget(const char *tier)
 void chk_run_case(uint64_t seed, long c, bool is_sweep)
 {
         (void)seed;
-        vr_fail = vw_fail = -1; hold_status = 0; descr[0] = 0; ovf = false; conc_event = false; lead_disabled = 0; big_ubuf = false; qmark = false; tgt_disabled = false; spurious_release = false;
+        vr_fail = vw_fail = -1; hold_status = 0; descr[0] = 0; ovf = false; conc_event = false; lead_disabled = 0; big_ubuf = false; qmark = false; tgt_disabled = false; spurious_release = false; wo_vars = false;
         if (is_sweep && c >= N_SWEEP_A) {      /* overflow cells: digits 1..10 x delta -2..+3 x FSM x code x bystander */
                 long k = c - N_SWEEP_A;
                 ovf = true; ovf_digits = 1 + (int)(k % 10); k /= 10; ovf_delta = (int)(k % 6) - 2; k /= 6; fsm = (int)(k % 2); k /= 2; conc_event = (k % 2) && fsm == FSM_A; k /= 2;
@@ -285,7 +285,9 @@ void chk_run_case(uint64_t seed, long c, bool is_sweep)
                 if (fsm == FSM_A && chance(30)) conc_event = true;
                 if (chance(25)) lead_disabled = 1 + (int)rn(2);
                 big_ubuf = chance(50); qmark = chance(30); tgt_disabled = chance(25); spurious_release = chance(25);
-                if (chance(12)) { ovf = true; kind = K_READ; nvars = 2; ovf_digits = 1 + (int)rn(10); ovf_delta = (int)rn(6) - 2; tight = false; }
+                wo_vars = kind == K_READ && nvars > 0 && chance(15);      /* a read handler on a command whose variables are all write-only: every pass is handed the same text (the bare prefix) */
+                if (wo_vars) CNT("read_cells_on_write_only_variables");
+                if (chance(12)) { wo_vars = false; ovf = true; kind = K_READ; nvars = 2; ovf_digits = 1 + (int)rn(10); ovf_delta = (int)rn(6) - 2; tight = false; }
         }
         if (!is_sweep) for (int i = 0; i < slen; i++) if (script[i] == 99 || script[i] == -7) {      /* values outside the enumeration: near it, congruent to a member modulo 2^8 / 2^16, the extremes of int */
                 static const int wild[] = { 99, -7, 9, 10, -2, 127, 128, 255, -128, -129, 1000, 65535, 65536, -65536, 0x7fffffff, (int)0x80000000u };
